@@ -67,6 +67,19 @@ theorem rawEv1_loop (o : Int) (csz : Nat) (cond : Node) (body : List P) :
       (rawEv (o + csz + 3) body ++ [.back (o + csz + 3 + P.sizes body) (csz + 3 + P.sizes body)]) := by
   simp [rawEv1]
 
+theorem rawEv1_loopX (o : Int) (csz : Nat) (cond : Node) (b1 : List P) (csz2 : Nat) (cond2 : Node) (t b2 : List P) :
+    rawEv1 o (.loopX csz cond b1 csz2 cond2 t b2) =
+      .st (jzStmt (o + csz) cond (o + csz + 3 + (P.sizes b1 + (csz2 + 3 + P.sizes t + 3) + P.sizes b2) + 2)) ::
+        (rawEv (o + csz + 3) b1 ++
+          .st (jzStmt (o + csz + 3 + P.sizes b1 + csz2) cond2 (o + csz + 3 + P.sizes b1 + csz2 + 3 + P.sizes t + 3)) ::
+            (rawEv (o + csz + 3 + P.sizes b1 + csz2 + 3) t ++
+              .st (jumpStmt (o + csz + 3 + P.sizes b1 + csz2 + 3 + P.sizes t)
+                  (o + csz + 3 + (P.sizes b1 + (csz2 + 3 + P.sizes t + 3) + P.sizes b2) + 2)) ::
+                (rawEv (o + csz + 3 + P.sizes b1 + csz2 + 3 + P.sizes t + 3) b2 ++
+                  [.back (o + csz + 3 + (P.sizes b1 + (csz2 + 3 + P.sizes t + 3) + P.sizes b2))
+                    (csz + 3 + (P.sizes b1 + (csz2 + 3 + P.sizes t + 3) + P.sizes b2))]))) := by
+  simp [rawEv1]
+
 mutual
 theorem runEv_raw1 : (x : P) → ∀ (o : Int) (done : List Node) (es : List Ev), x.wf = true → AllS (fun p _ => p < o) done →
     runEv done (rawEv1 o x ++ es) = runEv (done ++ emit1 false o x) es
@@ -103,6 +116,61 @@ theorem runEv_raw1 : (x : P) → ∀ (o : Int) (done : List Node) (es : List Ev)
       (o + csz + 3 + P.sizes body) (csz + 3 + P.sizes body) o (by push_cast; omega) hd
       (AllS.append (allS_jz _ _ _ (by omega)) (AllS.mono ib fun _ _ hh => by have := hh.1; omega))
     rw [List.append_assoc, List.singleton_append, runEv_back _ _ _ _ _ hj, List.nil_append]
+  | .loopX csz cond b1 csz2 cond2 t b2, o, done, es, h, hd => by
+    obtain ⟨hb1, ht, hb2, _⟩ := wf_loopX.1 h
+    have i1 := emit_inv false (o + csz + 3) b1 hb1
+    have it := emit_inv false (o + csz + 3 + P.sizes b1 + csz2 + 3) t ht
+    have i2 := emit_inv false (o + csz + 3 + P.sizes b1 + csz2 + 3 + P.sizes t + 3) b2 hb2
+    rw [emit1_loopX_raw, rawEv1_loopX]
+    simp only [List.cons_append, List.append_assoc]
+    have hd0 : AllS (fun p _ => p < o + csz + 3)
+        (done ++ [jzStmt (o + csz) cond (o + csz + 3 + (P.sizes b1 + (csz2 + 3 + P.sizes t + 3) + P.sizes b2) + 2)]) :=
+      AllS.append (AllS.mono hd fun _ _ hh => by omega) (allS_jz _ _ _ (by omega))
+    have hd1 : AllS (fun p _ => p < o + csz + 3 + P.sizes b1 + csz2 + 3)
+        ((done ++ [jzStmt (o + csz) cond (o + csz + 3 + (P.sizes b1 + (csz2 + 3 + P.sizes t + 3) + P.sizes b2) + 2)] ++
+          emit false (o + csz + 3) b1) ++
+          [jzStmt (o + csz + 3 + P.sizes b1 + csz2) cond2 (o + csz + 3 + P.sizes b1 + csz2 + 3 + P.sizes t + 3)]) :=
+      AllS.append (AllS.append (AllS.mono hd0 fun _ _ hh => by omega) (AllS.mono i1 fun _ _ hh => by have := hh.2.1; omega))
+        (allS_jz _ _ _ (by omega))
+    have hd2 : AllS (fun p _ => p < o + csz + 3 + P.sizes b1 + csz2 + 3 + P.sizes t + 3)
+        ((((done ++ [jzStmt (o + csz) cond (o + csz + 3 + (P.sizes b1 + (csz2 + 3 + P.sizes t + 3) + P.sizes b2) + 2)] ++
+          emit false (o + csz + 3) b1) ++
+          [jzStmt (o + csz + 3 + P.sizes b1 + csz2) cond2 (o + csz + 3 + P.sizes b1 + csz2 + 3 + P.sizes t + 3)]) ++
+          emit false (o + csz + 3 + P.sizes b1 + csz2 + 3) t) ++
+          [jumpStmt (o + csz + 3 + P.sizes b1 + csz2 + 3 + P.sizes t)
+            (o + csz + 3 + (P.sizes b1 + (csz2 + 3 + P.sizes t + 3) + P.sizes b2) + 2)]) :=
+      AllS.append (AllS.append (AllS.mono hd1 fun _ _ hh => by omega) (AllS.mono it fun _ _ hh => by have := hh.2.1; omega))
+        (allS_jump _ _ (by omega))
+    rw [runEv_st, runEv_raws b1 (o + csz + 3) _ _ hb1 hd0, runEv_st, runEv_raws t (o + csz + 3 + P.sizes b1 + csz2 + 3) _ _ ht hd1,
+      runEv_st, runEv_raws b2 (o + csz + 3 + P.sizes b1 + csz2 + 3 + P.sizes t + 3) _ _ hb2 hd2]
+    have hj := jumpBack_split done
+      (jzStmt (o + csz) cond (o + csz + 3 + (P.sizes b1 + (csz2 + 3 + P.sizes t + 3) + P.sizes b2) + 2) ::
+        (emit false (o + csz + 3) b1 ++
+          jzStmt (o + csz + 3 + P.sizes b1 + csz2) cond2 (o + csz + 3 + P.sizes b1 + csz2 + 3 + P.sizes t + 3) ::
+            (emit false (o + csz + 3 + P.sizes b1 + csz2 + 3) t ++
+              jumpStmt (o + csz + 3 + P.sizes b1 + csz2 + 3 + P.sizes t)
+                  (o + csz + 3 + (P.sizes b1 + (csz2 + 3 + P.sizes t + 3) + P.sizes b2) + 2) ::
+                emit false (o + csz + 3 + P.sizes b1 + csz2 + 3 + P.sizes t + 3) b2)))
+      (o + csz + 3 + (P.sizes b1 + (csz2 + 3 + P.sizes t + 3) + P.sizes b2)) (csz + 3 + (P.sizes b1 + (csz2 + 3 + P.sizes t + 3) + P.sizes b2)) o
+      (by push_cast; omega) hd
+      (AllS.append (allS_jz _ _ _ (by omega)) (AllS.append (AllS.mono i1 fun _ _ hh => by have := hh.1; omega)
+        (AllS.append (allS_jz _ _ _ (by omega)) (AllS.append (AllS.mono it fun _ _ hh => by have := hh.1; omega)
+          (AllS.append (allS_jump _ _ (by omega)) (AllS.mono i2 fun _ _ hh => by have := hh.1; omega))))))
+    have hshape : (((((done ++ [jzStmt (o + csz) cond (o + csz + 3 + (P.sizes b1 + (csz2 + 3 + P.sizes t + 3) + P.sizes b2) + 2)] ++
+          emit false (o + csz + 3) b1) ++
+          [jzStmt (o + csz + 3 + P.sizes b1 + csz2) cond2 (o + csz + 3 + P.sizes b1 + csz2 + 3 + P.sizes t + 3)]) ++
+          emit false (o + csz + 3 + P.sizes b1 + csz2 + 3) t) ++
+          [jumpStmt (o + csz + 3 + P.sizes b1 + csz2 + 3 + P.sizes t)
+            (o + csz + 3 + (P.sizes b1 + (csz2 + 3 + P.sizes t + 3) + P.sizes b2) + 2)]) ++
+          emit false (o + csz + 3 + P.sizes b1 + csz2 + 3 + P.sizes t + 3) b2) =
+        done ++ (jzStmt (o + csz) cond (o + csz + 3 + (P.sizes b1 + (csz2 + 3 + P.sizes t + 3) + P.sizes b2) + 2) ::
+        (emit false (o + csz + 3) b1 ++
+          jzStmt (o + csz + 3 + P.sizes b1 + csz2) cond2 (o + csz + 3 + P.sizes b1 + csz2 + 3 + P.sizes t + 3) ::
+            (emit false (o + csz + 3 + P.sizes b1 + csz2 + 3) t ++
+              jumpStmt (o + csz + 3 + P.sizes b1 + csz2 + 3 + P.sizes t)
+                  (o + csz + 3 + (P.sizes b1 + (csz2 + 3 + P.sizes t + 3) + P.sizes b2) + 2) ::
+                emit false (o + csz + 3 + P.sizes b1 + csz2 + 3 + P.sizes t + 3) b2))) := by simp [List.append_assoc]
+    rw [hshape, runEv_back _ _ _ _ _ hj, List.nil_append]
 theorem runEv_raws : (ps : List P) → ∀ (o : Int) (done : List Node) (es : List Ev), P.wfs ps = true → AllS (fun p _ => p < o) done →
     runEv done (rawEv o ps ++ es) = runEv (done ++ emit false o ps) es
   | [], o, done, es, _, _ => by simp [rawEv, emit]
